@@ -221,6 +221,33 @@ func DelItem(self Object, key Object) (Object, error) {
 	return nil, ExceptionNewf(TypeError, "'%s' object does not support item deletion", self.Type().Name)
 }
 
+// Is reports whether a and b are the same python object (the "is"
+// operator).
+//
+// Go's == on interface values panics if both hold the same
+// uncomparable type, which Tuple, Bytes (slices) and StringDict (a
+// map) are, so those are identified by their storage.
+func Is(a, b Object) bool {
+	ta := reflect.TypeOf(a)
+	if ta != reflect.TypeOf(b) {
+		return false
+	}
+	if ta == nil || ta.Comparable() {
+		return a == b
+	}
+	va, vb := reflect.ValueOf(a), reflect.ValueOf(b)
+	switch va.Kind() {
+	case reflect.Slice:
+		if va.Len() != vb.Len() {
+			return false
+		}
+		return va.Len() == 0 || va.Pointer() == vb.Pointer()
+	case reflect.Map:
+		return va.Pointer() == vb.Pointer()
+	}
+	return false
+}
+
 // GetAttrString - returns the result or an err to be raised if not found
 //
 // If not found err will be an AttributeError
